@@ -35,6 +35,12 @@ LEVEL_TEXT = (
     "transformations write only into copies. Index maps through np.unique "
     "on concrete data, measures of concrete meshes and compositions are not "
     "decided.")
+LEVEL_TEXT += (
+    " Added after the seeding phase: (R4) morphed / scaled / translated "
+    "decided by symbolic runs on rows (x0, x1, x2): every coordinate "
+    "function sees the original points; 'vertices reordered within cells' "
+    "is recognised by simulating the row moves (any net permutation under "
+    "constant row selectors).")
 LEVEL_NOTE = ("Trusted: numpy hstack/unique/intersect1d semantics; "
               "order-preserving vertex compaction keeps the lexicographic "
               "facet order.")
